@@ -77,18 +77,31 @@ def get_trail(obj: object) -> Trail:
 
 BaseExcT = TypeVar("BaseExcT", bound=BaseException)
 
+
+def _safe_repr(obj: object) -> str:
+    try:
+        return repr(obj)
+    except Exception:  # noqa: BLE001
+        return f"<unrepresentable {type(obj).__qualname__} object>"
+
+
+def _render_trail(trail: Trail) -> str:
+    # trail elements are keys taken from input data, their repr can fail (e.g. int exceeding the str conversion limit)
+    return "[" + ", ".join(_safe_repr(element) for element in trail) + "]"
+
+
 if HAS_NATIVE_EXC_GROUP:
     def render_trail_as_note(exc: BaseExcT) -> BaseExcT:
         trail = get_trail(exc)
         if trail:
-            exc.add_note(f"Exception was caused at {list(trail)}")
+            exc.add_note(f"Exception was caused at {_render_trail(trail)}")
         return exc
 else:
     def render_trail_as_note(exc: BaseExcT) -> BaseExcT:
         trail = get_trail(exc)
         if trail:
             if hasattr(exc, "__notes__"):
-                exc.__notes__.append(f"Exception was caused at {list(trail)}")
+                exc.__notes__.append(f"Exception was caused at {_render_trail(trail)}")
             else:
-                exc.__notes__ = [f"Exception was caused at {list(trail)}"]
+                exc.__notes__ = [f"Exception was caused at {_render_trail(trail)}"]
         return exc
